@@ -622,9 +622,14 @@ fn op_reserve(cx: &mut Ctx, s: usize, n: usize, fallible: bool, fuse: Option<u64
             vio("C10", format!("reserve changed len {} -> {}", len0, m.len()));
         }
         if let Out::P(ref c) = out {
-            if c != "capov" {
+            if fallible {
+                vio("C10", format!("try_reserve({}) panicked ({}) instead of returning Err", n, c));
+            } else if c != "capov" {
                 vio("C10", format!("reserve({}) panicked with {}", n, c));
             }
+        }
+        if out == Out::B(false) {
+            check_contents(cx, s, "C10", "a failed try_reserve");
         }
     }
     if fuse.is_some() {
